@@ -227,6 +227,14 @@ func run(c check, tier string, seed int64, onlyUnit string) int {
 			violations = append(violations, tagged{r.u.Name, *r.crash})
 		}
 		for _, v := range r.races {
+			if !strings.Contains(v.Signature, "github.com/IBM/TSS") {
+				if strings.Contains(v.Signature, "(harness frames)") {
+					harnessBug = "the race detector reported a race in the harness itself: " + fmt.Sprint(v.Replay)
+				} else {
+					counters[r.u.Name+".third_party_race_reports"]++ // e.g. inside tss-lib: reported, not a property of IBM/TSS
+				}
+				continue
+			}
 			violations = append(violations, tagged{r.u.Name, v})
 		}
 		p := r.part
@@ -460,7 +468,8 @@ func runChild(c check, un unit, shard, shards int, tier string, seed int64, bin,
 	if r.timedOut {
 		return r
 	}
-	if werr != nil || r.part == nil || !r.part.Done {
+	// a -race child that finished its work exits with the detector's own code when it saw races: that is not a crash
+	if r.part == nil || !r.part.Done || (werr != nil && !un.Race) {
 		// the child died: find out where
 		running := runningCases(journal)
 		sig, what, harness := classifyCrash(logPath)
@@ -572,7 +581,7 @@ func classifyCrash(logPath string) (sig, what string, harness bool) {
 	return class + "@" + fnShort, msg + " in " + fn, strings.HasPrefix(fn, "verifharness/") || strings.HasPrefix(fn, "main.")
 }
 
-var raceFrame = regexp.MustCompile(`^\s+(github\.com/IBM/TSS[^\s(]*)\(`)
+var raceFrame = regexp.MustCompile(`^\s+(github\.com/IBM/TSS/\S+)\(\)\s*$`)
 
 // raceReports parses the race detector's log files and returns one violation per distinct pair of
 // innermost IBM/TSS frames.
@@ -596,11 +605,20 @@ func raceReports(prefix string) []common.Violation {
 				if !(strings.Contains(st, "Write at") || strings.Contains(st, "Read at") || strings.Contains(st, "Previous write") || strings.Contains(st, "Previous read")) {
 					continue
 				}
-				fr := "(no IBM/TSS frame)"
+				fr := "(third-party frames only)"
 				for _, l := range strings.Split(st, "\n") {
 					if m := raceFrame.FindStringSubmatch(l); m != nil {
 						fr = regexp.MustCompile(`\.func[0-9.]+$`).ReplaceAllString(m[1], "")
 						break
+					}
+				}
+				if fr == "(third-party frames only)" {
+					for _, l := range strings.Split(st, "\n") {
+						t := strings.TrimSpace(l)
+						if strings.HasPrefix(t, "verifharness/") || strings.HasPrefix(t, "main.") {
+							fr = "(harness frames)"
+							break
+						}
 					}
 				}
 				frames = append(frames, fr)
